@@ -156,61 +156,61 @@ def hex4 (a b c d : Char) : Option Nat :=
 
 def replacementChar : Char := Char.ofNat 0xFFFD
 
-/-- the body of a string after its opening quote: (decoded characters, rest after the closing
-quote).  Control characters below 0x20 are a syntax error; `🔑` pairs are combined, a lone
-surrogate becomes U+FFFD (as `encoding/json` does). -/
-def parseStrBody : List Char → Option (List Char × List Char)
+/-- one escape sequence, positioned after the backslash: the character it denotes and the rest.
+`\uD83D\uDD11` pairs are combined, a lone surrogate becomes U+FFFD (as `encoding/json` does). -/
+def parseEscape : List Char → Option (Char × List Char)
   | [] => none
-  | c :: r =>
+  | e :: r1 =>
+    if e = '"' then some ('"', r1)
+    else if e = '\\' then some ('\\', r1)
+    else if e = '/' then some ('/', r1)
+    else if e = 'b' then some (Char.ofNat 8, r1)
+    else if e = 'f' then some (Char.ofNat 12, r1)
+    else if e = 'n' then some ('\n', r1)
+    else if e = 'r' then some ('\r', r1)
+    else if e = 't' then some ('\t', r1)
+    else if e = 'u' then
+      match r1 with
+      | h1 :: h2 :: h3 :: h4 :: r2 =>
+        match hex4 h1 h2 h3 h4 with
+        | none => none
+        | some u =>
+          if 0xD800 ≤ u ∧ u < 0xDC00 then
+            -- high surrogate: combined with a directly following \uDC00..\uDFFF
+            match r2 with
+            | b1 :: b2 :: l1 :: l2 :: l3 :: l4 :: r3 =>
+              match (if b1 = '\\' ∧ b2 = 'u' then hex4 l1 l2 l3 l4 else none) with
+              | some lo =>
+                if 0xDC00 ≤ lo ∧ lo < 0xE000 then
+                  some (Char.ofNat (0x10000 + (u - 0xD800) * 1024 + (lo - 0xDC00)), r3)
+                else some (replacementChar, r2)
+              | none => some (replacementChar, r2)
+            | _ => some (replacementChar, r2)
+          else some ((if 0xDC00 ≤ u ∧ u < 0xE000 then replacementChar else Char.ofNat u), r2)
+      | _ => none
+    else none
+
+/-- the body of a string after its opening quote: (decoded characters, rest after the closing
+quote).  Control characters below 0x20 are a syntax error.  The fuel counts characters. -/
+def parseStrBodyF : Nat → List Char → Option (List Char × List Char)
+  | 0, _ => none
+  | _ + 1, [] => none
+  | f + 1, c :: r =>
     if c = '"' then some ([], r)
     else if c = '\\' then
-      match r with
-      | [] => none
-      | e :: r1 =>
-        let simple (x : Char) : Option (List Char × List Char) :=
-          match parseStrBody r1 with
-          | some (s, r') => some (x :: s, r')
-          | none => none
-        if e = '"' then simple '"'
-        else if e = '\\' then simple '\\'
-        else if e = '/' then simple '/'
-        else if e = 'b' then simple (Char.ofNat 8)
-        else if e = 'f' then simple (Char.ofNat 12)
-        else if e = 'n' then simple '\n'
-        else if e = 'r' then simple '\r'
-        else if e = 't' then simple '\t'
-        else if e = 'u' then
-          match r1 with
-          | h1 :: h2 :: h3 :: h4 :: r2 =>
-            -- continuation after this escape alone (delayed: only one of the two is evaluated)
-            let cont (x : Char) (_ : Unit) : Option (List Char × List Char) :=
-              match parseStrBody r2 with
-              | some (s, r') => some (x :: s, r')
-              | none => none
-            match hex4 h1 h2 h3 h4 with
-            | none => none
-            | some u =>
-              if 0xD800 ≤ u ∧ u < 0xDC00 then
-                -- high surrogate: needs a following \uDC00..\uDFFF
-                match r2 with
-                | b1 :: b2 :: l1 :: l2 :: l3 :: l4 :: r3 =>
-                  match (if b1 = '\\' ∧ b2 = 'u' then hex4 l1 l2 l3 l4 else none) with
-                  | some lo =>
-                    if 0xDC00 ≤ lo ∧ lo < 0xE000 then
-                      match parseStrBody r3 with
-                      | some (s, r') => some (Char.ofNat (0x10000 + (u - 0xD800) * 1024 + (lo - 0xDC00)) :: s, r')
-                      | none => none
-                    else cont replacementChar ()
-                  | none => cont replacementChar ()
-                | _ => cont replacementChar ()
-              else cont (if 0xDC00 ≤ u ∧ u < 0xE000 then replacementChar else Char.ofNat u) ()
-          | _ => none
-        else none
+      match parseEscape r with
+      | none => none
+      | some (x, r') =>
+        match parseStrBodyF f r' with
+        | some (s, r'') => some (x :: s, r'')
+        | none => none
     else if c.toNat < 32 then none
     else
-      match parseStrBody r with
+      match parseStrBodyF f r with
       | some (s, r') => some (c :: s, r')
       | none => none
+
+def parseStrBody (cs : List Char) : Option (List Char × List Char) := parseStrBodyF cs.length cs
 
 def isNumChar (c : Char) : Bool :=
   (48 ≤ c.toNat ∧ c.toNat ≤ 57) ∨ c = '-' ∨ c = '+' ∨ c = '.' ∨ c = 'e' ∨ c = 'E'
